@@ -527,6 +527,35 @@ func checkLaundering(c *core.Ctx) {
 						}
 					case *ast.IfStmt:
 						if st != n {
+							// the wrapped form of the same shortcut: `if x != 0 { ...in-place updates... }` inside a counted loop
+							if len(loopStack) > 0 && st.Else == nil {
+								if cl, _ := classifyLoop(info, loopStack[len(loopStack)-1]); cl == "counted" {
+									zt := ""
+									if be, ok := ast.Unparen(st.Cond).(*ast.BinaryExpr); ok && be.Op == token.NEQ {
+										if (isZeroLit(info, be.X) && isSource(be.Y)) || (isZeroLit(info, be.Y) && isSource(be.X)) {
+											zt = exprStr(st.Cond)
+										}
+									}
+									if zt != "" {
+										upd := false
+										ast.Inspect(st.Body, func(y ast.Node) bool {
+											if ce, ok := y.(*ast.CallExpr); ok && len(ce.Args) >= 1 {
+												nm := strings.ToLower(calleeName(ce))
+												if nm == "add" || nm == "sub" || nm == "logadd" {
+													if se, ok := ce.Fun.(*ast.SelectorExpr); ok && exprStr(se.X) == exprStr(ce.Args[0]) {
+														upd = true
+													}
+												}
+											}
+											return true
+										})
+										if upd {
+											c.Fail("C06.R2", cons, "updates guarded by "+zt, st.Pos(),
+												"the updates of a loop cycle are carried out only if an element's value is not exactly zero ("+zt+"): the skipped terms still contribute derivatives when that element is an activated variable")
+										}
+									}
+								}
+							}
 							ifStack = append(ifStack, st)
 							visit(st.Body)
 							ifStack = ifStack[:len(ifStack)-1]
@@ -551,9 +580,9 @@ func checkLaundering(c *core.Ctx) {
 								nm := strings.ToLower(calleeName(ce))
 								if nm == "add" || nm == "sub" || nm == "logadd" {
 									if se, ok := ce.Fun.(*ast.SelectorExpr); ok && exprStr(se.X) == exprStr(ce.Args[0]) {
-										if _, isId := ast.Unparen(se.X).(*ast.Ident); isId {
-											accum = true
-										}
+										// X.Add(X, t) with X a local accumulator, or an in-place update of a container element
+										// a.At(i,k).Sub(a.At(i,k), t): either way the cycle contributes a term to a result
+										accum = true
 									}
 								}
 							}
